@@ -26,6 +26,8 @@ def strip(cmd):
     parts = [x.strip() for x in cmd.split("&&")]
     keep = [x for x in parts if x and not x.startswith("cd ") and "git apply" not in x
             and "git checkout" not in x and "git stash" not in x and "git clean" not in x]
+    import re
+    keep = [re.sub(r"\b(CARGO_TARGET_DIR|CARGO_HOME|CARGO_NET_OFFLINE)=\S+\s*", "", x) for x in keep]
     return " && ".join(keep)
 
 res = {"deliverable": d, "worktree": wt}
